@@ -14,7 +14,17 @@ COMMON_ASSUMPTIONS = [
 # non-test files added to the repo module through the overlay for every check (observation accessors, //go:build verif)
 GLOBAL_OVERLAY = {
     "internal/queue/zz_verif_access.go": "harness/extra/queue_access.go",
+    "pkg/secretstore/zz_verif_access.go": "harness/extra/secretstore_access.go",
 }
+
+# Files whose range statements over maps are rewritten to a seeded iteration order (instrumenter -ranges-only) in every
+# build that compiles them, so that the order of what the real code does per map entry (appending one secret per
+# member, registering one chain key per device, writing one key file per entry) is a function of the seed.
+# Files that a check instruments fully get the same rewrite as part of the instrumentation.
+DETERMINIZE = [
+    "group_context.go", "store_metadata_index.go", "store_metadata.go", "connectedness_manager.go", "service.go",
+    "account_export.go", "pkg/secretstore/device_keystore_wrapper.go",
+]
 
 CHECKS = {
     "C18": {
@@ -183,18 +193,25 @@ CHECKS = {
         "assumptions": COMMON_ASSUMPTIONS,
     },
     "C01": {
-        "pkg": "pkg/secretstore",
-        "test": "TestVerifC01",
         "level": "fault_enumeration",
-        "quick": {"procs": 32, "checks_per_proc": 12},
-        "thorough": {"procs": 64, "checks_per_proc": 150},
+        "parts": [
+            {"pkg": "pkg/secretstore", "test": "TestVerifC01",
+             "quick": {"procs": 32, "checks_per_proc": 12}, "thorough": {"procs": 64, "checks_per_proc": 150}},
+            {"pkg": ".", "test": "TestVerifC01M", "proc_timeout": "60m",
+             "quick": {"procs": 16, "checks_per_proc": 50}, "thorough": {"procs": 32, "checks_per_proc": 600}},
+        ],
         "rule": "one case = a three-party session (sender, receiver, Byzantine fellow member) on a contact / account / multi-member "
                 "group with 1-6 sealed payloads of sizes {0,1,2,31,32,33,255,4096,65536,random}; for the envelopes in flight: every "
                 "single-bit flip (all bits up to 2 KiB, 4096 seeded positions beyond), every pairwise field substitution, cross-group "
                 "replay, re-attribution to another device/counter by the Byzantine member and payloads forged under the sender's "
-                "genuine message key with five kinds of signature. non-trivial = at least one fault applied (always); distinct = "
+                "genuine message key with five kinds of signature. part 2: one case = sender, receiver and Byzantine member replicating "
+                "the message log of a multi-member group over the simulated network (key window from {100,2,3}); 1-4 genuine messages, "
+                "the Byzantine member appends altered copies and forgeries (bit flips, ciphertext swap, re-attribution, payloads under "
+                "the sender's or the receiver's own message key) as log entries of its own, simulator-chosen deliveries; observed at the "
+                "receiver's GroupMessageEvent emissions at the fixpoint. non-trivial = at least one fault applied (always); distinct = "
                 "distinct hash of the session trace. scheduler_or_event_steps counts individual altered envelopes delivered.",
-        "required_probes": ["authentic_opened", "member_forgery_attempted", "forgery_as_opening_device_attempted", "genuine_opens_after_rejected_forgery"],
+        "required_probes": ["authentic_opened", "member_forgery_attempted", "forgery_as_opening_device_attempted", "genuine_opens_after_rejected_forgery",
+                            "forged_entries_not_delivered", "genuine_messages_delivered"],
         "assumptions": COMMON_ASSUMPTIONS + ["the emission point of MessageStore (GroupMessageEvent) is exercised by C08, here the observation point is the secret store API the message store calls"],
     },
     "C14": {
